@@ -180,8 +180,9 @@ void shared_solver(vf::ctx_t& c, int T)
     auto       solver = solver_t::all().get(id);
     solver->parameter("solver::max_evals") = rng.integer(50, 400);
     solver->parameter("solver::epsilon")   = rng.loguniform(1e-10, 1e-4);
-    if (solver->type() == solver_type::line_search && rng.chance(0.5))
+    if (solver->type() == solver_type::line_search && rng.chance(0.85))
     {
+        // every step-initialisation x line-search pairing (each of them is a separate object with possible hidden state)
         solver->lsearch0(rng.pick(lsearch0_t::all().ids()));
         solver->lsearchk(rng.pick(lsearchk_t::all().ids()));
     }
@@ -865,16 +866,26 @@ int main(int argc, char** argv)
                    {
                        const int T = c.rng.pick(std::vector<int>{2, 4, 8, 16});
                        c.count("threads:" + std::to_string(T));
-                       switch (c.rng.integer(0, 9))
+                       // solver scenarios are cheap and cover 32 solver ids x 4 x 5 line-search objects: half of the cases
+                       switch (c.rng.integer(0, 19))
                        {
                        case 0:
                        case 1:
                        case 2:
-                       case 3: shared_solver(c, T); break;
+                       case 3:
                        case 4:
-                       case 5: shared_loss(c, T); break;
+                       case 5:
                        case 6:
-                       case 7: shared_dataset(c, T); break;
+                       case 7:
+                       case 8:
+                       case 9: shared_solver(c, T); break;
+                       case 10:
+                       case 11:
+                       case 12: shared_loss(c, T); break;
+                       case 13:
+                       case 14:
+                       case 15:
+                       case 16: shared_dataset(c, T); break;
                        default: shared_model(c, T); break;
                        }
                    });
